@@ -339,7 +339,7 @@ func checkOwnership(p *core.Program, r *core.Report, gadgets []*gadgetInfo, mut 
 		}
 	}
 	r.Count("in-place call sites", n)
-	r.Floor("in-place call sites", 5)
+	r.Floor("in-place call sites", 3)
 }
 
 // staleHolderReads: reads of holder.field (or of the whole holder struct) reachable from the call without passing a store to
